@@ -809,6 +809,9 @@ func init() {
 				}
 			}
 			meta.Histogram["deepObject cases"] = nd
+			if sig, detail := runCaseVariants(); sig != "" {
+				meta.GoViolation = append(meta.GoViolation, map[string]any{"signature": sig, "cases": []any{map[string]string{"path_level": "Limit (required)", "operation_level": "limit", "request": "limit=5"}}, "go_observation": detail, "judgement": sig + " " + detail})
+			}
 			for _, cc := range compCases() {
 				cc := cc
 				sig, detail := runComp(&cc)
